@@ -164,6 +164,13 @@ func (s *Struct) Copy() *Struct {
 
 type Ptr struct{ Elem *Struct }
 
+// Seq is an iterator (iter.Seq when Keys is nil, iter.Seq2 otherwise) over known elements.
+type Seq struct {
+	Keys  []Value
+	Elems []Value
+	Two   bool
+}
+
 type MapV struct {
 	Keys []Value
 	Vals []Value
@@ -179,6 +186,8 @@ type Closure struct {
 type FuncV struct {
 	Fn   *types.Func
 	Recv Value
+	// MethodExpr marks T.Method: the receiver is the first argument of a call.
+	MethodExpr bool
 }
 
 // Opaque is a value of a type from outside moq (go/types objects ...).
@@ -193,7 +202,76 @@ type Opaque struct {
 }
 
 // Unknown is a value the abstract domain cannot represent.
-type Unknown struct{ Why string }
+type Unknown struct {
+	Why string
+	// Lower is a known lower bound of an unknown integer (a length), valid when HasLower.
+	Lower    int64
+	HasLower bool
+	// Cut marks an unknown integer that is a byte position inside a symbolic string
+	// (the result of strings.Index on it): slicing that string there is decided.
+	Cut *Cut
+}
+
+// Cut is the position before byte Off of the literal part Part of S.
+type Cut struct {
+	S    *Sym
+	Part int
+	Off  int
+}
+
+// CutPos resolves a slice bound of s: a concrete offset into a leading literal, or a Cut of s.
+func (s *Sym) CutPos(v Value) (part, off int, ok bool) {
+	switch v := v.(type) {
+	case int64:
+		if v == 0 {
+			return 0, 0, true
+		}
+		if len(s.Parts) > 0 && s.Parts[0].Tok == "" && int(v) <= len(s.Parts[0].Lit) && v >= 0 {
+			return 0, int(v), true
+		}
+	case *Unknown:
+		if v.Cut != nil && v.Cut.S.Flat() == s.Flat() && v.Cut.Part < len(s.Parts) {
+			return v.Cut.Part, v.Cut.Off, true
+		}
+	}
+	return 0, 0, false
+}
+
+// Between returns the text from one position to another (an absent end is the end of the string).
+func (s *Sym) Between(p1, o1, p2, o2 int, toEnd bool) (*Sym, bool) {
+	if toEnd {
+		p2, o2 = len(s.Parts), 0
+	}
+	if p1 > p2 || (p1 == p2 && o1 > o2) {
+		return nil, false
+	}
+	out := &Sym{}
+	for i := p1; i <= p2 && i < len(s.Parts); i++ {
+		p := s.Parts[i]
+		if p.Tok != "" {
+			if (i == p1 && o1 != 0) || (i == p2 && o2 != 0) {
+				return nil, false
+			}
+			if i == p2 {
+				break
+			}
+			out.push(p)
+			continue
+		}
+		lo, hi := 0, len(p.Lit)
+		if i == p1 {
+			lo = o1
+		}
+		if i == p2 {
+			hi = o2
+		}
+		if lo > hi || hi > len(p.Lit) {
+			return nil, false
+		}
+		out.push(Part{Lit: p.Lit[lo:hi]})
+	}
+	return out, true
+}
 
 type Tuple []Value
 
@@ -215,6 +293,8 @@ func Show(v Value) string {
 			ss = append(ss, Show(e))
 		}
 		return "[" + strings.Join(ss, ", ") + "]"
+	case *Seq:
+		return fmt.Sprintf("iterator over %d elements", len(v.Elems))
 	case *Struct:
 		return "struct " + types.TypeString(v.Type, nil)
 	case *Ptr:
